@@ -276,6 +276,158 @@ func branchHere(kind vrt.OpKind, label string) bool {
 		strings.Contains(label, "(*entry)") || strings.Contains(label, "(*compactionStrategy)")
 }
 
+// ---------- sequential histories: delete ranges (sharing bounds), snapshots, overwrites, restarts ----------
+
+type HOp struct {
+	Kind string `json:"kind"` // del snap reopen write
+	Min  int64  `json:"min,omitempty"`
+	Max  int64  `json:"max,omitempty"`
+	T    int64  `json:"t,omitempty"`
+}
+
+func (o HOp) String() string {
+	switch o.Kind {
+	case "del":
+		return fmt.Sprintf("delete(s1,[%d,%d])", o.Min, o.Max)
+	case "write":
+		return fmt.Sprintf("write(s1,t=%d)", o.T)
+	}
+	return o.Kind
+}
+
+type HCase struct {
+	Layout string `json:"layout"`
+	Ops    []HOp  `json:"ops"`
+}
+
+func hAlphabet(thorough bool) []HOp {
+	a := []HOp{{Kind: "snap"}, {Kind: "reopen"}, {Kind: "write", T: 2},
+		{Kind: "del", Min: 1, Max: 3}, {Kind: "del", Min: 1, Max: 2}, {Kind: "del", Min: 1, Max: 1}, {Kind: "del", Min: 2, Max: 3}, {Kind: "del", Min: 2, Max: 2}}
+	if thorough {
+		a = append(a, HOp{Kind: "del", Min: 3, Max: 3}, HOp{Kind: "write", T: 1}, HOp{Kind: "del", Min: 0, Max: 9})
+	}
+	return a
+}
+
+// runHistory executes the op list on a fresh real engine and compares every read with a map model.
+func runHistory(hc HCase) (verdicts []string, outcome string) {
+	add := func(sig, msg string) { verdicts = append(verdicts, sig+"|"+msg) }
+	dir := vlib.Scratch("c03h-")
+	defer os.RemoveAll(dir)
+	e, err := engkit.Open(dir)
+	if err != nil {
+		return []string{"harness|open: " + err.Error()}, ""
+	}
+	defer func() { e.Close() }()
+	if err := buildLayout(e, hc.Layout); err != nil {
+		return []string{"harness|layout: " + err.Error()}, ""
+	}
+	m1 := map[int64]float64{1: 1, 2: 2, 3: 3}
+	wn := 0
+	check := func(step int, after string) bool {
+		p1, err1 := e.Read(s1, "v")
+		p2, err2 := e.Read(s2, "v")
+		if err1 != nil || err2 != nil {
+			add("history/read-error", fmt.Sprintf("after step %d (%s): %v %v", step, after, err1, err2))
+			return false
+		}
+		var want []engkit.Pt
+		for _, t := range []int64{1, 2, 3} {
+			if v, ok := m1[t]; ok {
+				want = append(want, engkit.Pt{T: t, V: v})
+			}
+		}
+		if fmtPts(p1) != fmtPts(want) {
+			kind := "undeleted-point-missing-or-changed"
+			got := map[int64]bool{}
+			for _, p := range p1 {
+				got[p.T] = true
+				if _, ok := m1[p.T]; !ok {
+					kind = "deleted-point-returned"
+				}
+			}
+			add("history/"+kind+"/after="+strings.SplitN(after, "(", 2)[0], fmt.Sprintf("after step %d (%s): s1=[%s], model [%s]", step, after, fmtPts(p1), fmtPts(want)))
+			return false
+		}
+		if fmtPts(p2) != "1=1 2=2" {
+			add("history/other-series-affected/after="+strings.SplitN(after, "(", 2)[0], fmt.Sprintf("after step %d (%s): s2=[%s]", step, after, fmtPts(p2)))
+			return false
+		}
+		return true
+	}
+	for i, op := range hc.Ops {
+		switch op.Kind {
+		case "snap":
+			err = e.E.WriteSnapshot()
+		case "reopen":
+			err = e.Reopen()
+		case "write":
+			wn++
+			v := float64(100*wn) + float64(op.T)
+			if err = e.Write(s1, "v", engkit.Pt{T: op.T, V: v}); err == nil {
+				m1[op.T] = v
+			}
+		case "del":
+			if err = e.Delete(op.Min, op.Max, s1); err == nil {
+				for t := range m1 {
+					if t >= op.Min && t <= op.Max {
+						delete(m1, t)
+					}
+				}
+			}
+		}
+		if err != nil {
+			add("history/op-error/"+op.Kind, fmt.Sprintf("step %d %s: %v", i, op, err))
+			return verdicts, "error"
+		}
+		if !check(i, op.String()) {
+			return verdicts, "violation"
+		}
+	}
+	// a final restart must not bring anything back
+	if err := e.Reopen(); err != nil {
+		add("history/op-error/reopen", err.Error())
+		return verdicts, "error"
+	}
+	check(len(hc.Ops), "final reopen")
+	return verdicts, fmt.Sprintf("left=%d", len(m1))
+}
+
+func histories(thorough bool) []HCase {
+	depth := 3
+	if thorough {
+		depth = 4
+	}
+	al := hAlphabet(thorough)
+	var out []HCase
+	for _, lay := range []string{"cache", "tsm+cache", "2tsm+cache"} {
+		var rec func(cur []HOp)
+		rec = func(cur []HOp) {
+			if len(cur) > 0 {
+				// keep histories that contain at least one delete
+				has := false
+				for _, o := range cur {
+					has = has || o.Kind == "del"
+				}
+				if has {
+					out = append(out, HCase{Layout: lay, Ops: append([]HOp{}, cur...)})
+				}
+			}
+			if len(cur) == depth {
+				return
+			}
+			for _, o := range al {
+				if len(cur) > 0 && cur[len(cur)-1].Kind == o.Kind && (o.Kind == "snap" || o.Kind == "reopen") {
+					continue
+				}
+				rec(append(cur, o))
+			}
+		}
+		rec(nil)
+	}
+	return out
+}
+
 func scenarios(thorough bool) []Scenario {
 	var out []Scenario
 	for _, lay := range []string{"cache", "tsm+cache", "2tsm+cache"} {
@@ -332,10 +484,10 @@ func explore(t *testing.T, sc Scenario, bound int, stop func() bool, visit func(
 func TestCheck(t *testing.T) {
 	vlib.Main(t, &vlib.Check{
 		ID: "C03", Level: "model_checking",
-		Rule: "scenarios = 3 initial layouts (cache only; 1 TSM file + cache; 2 TSM files + cache) × delete ranges {[2,2],[all],[1,2]} of series s1 (points t=1,2,3; control series s2) × {no writer, concurrent writer of s1 t=2 (in range), concurrent writer of s1 t=4 (out of range)} with the delete (Engine.DeleteSeriesRange) running concurrently with Engine.WriteSnapshot on a real tsm1.Engine (tsi1, series file, WAL); every interleaving with ≤ B preemptions (B=1 quick, 2 thorough) at the sync/atomic operations of engine.go and cache.go; after the threads finish the series are read, then a later snapshot is written and the data read again, then the engine is reopened and read again. states = decision nodes, transitions = scheduling steps, traces = executions; non-trivial = executions with ≥1 preemption",
+		Rule: "(1) sequential histories: every sequence of ≤3 (thorough ≤4) ops over {snapshot, reopen, overwrite s1 t=2, delete s1 over [1,3],[1,2],[1,1],[2,3],[2,2] (ranges sharing a bound)} containing a delete, from 3 layouts, on a real engine; after EVERY step and after a final restart both series are read and compared with a map model. (2) scenarios = 3 initial layouts (cache only; 1 TSM file + cache; 2 TSM files + cache) × delete ranges {[2,2],[all],[1,2]} of series s1 (points t=1,2,3; control series s2) × {no writer, concurrent writer of s1 t=2 (in range), concurrent writer of s1 t=4 (out of range)} with the delete (Engine.DeleteSeriesRange) running concurrently with Engine.WriteSnapshot on a real tsm1.Engine (tsi1, series file, WAL); every interleaving with ≤ B preemptions (B=1 quick, 2 thorough) at the sync/atomic operations of engine.go and cache.go; after the threads finish the series are read, then a later snapshot is written and the data read again, then the engine is reopened and read again. states = decision nodes, transitions = scheduling steps, traces = executions; non-trivial = executions with ≥1 preemption",
 		Assumptions: []string{"sequentially consistent interleavings at the granularity of Engine/Cache mutex and atomic operations; goroutines inside FileStore/Compactor/WAL run unscheduled between those points",
 			"level/full compactions concurrent with the delete are not yet part of this check (the engine aborts them before deleting)"},
-		QuickBudgetS: 75, ThoroughBudgetS: 1200, WorkerEnv: []string{"GOMAXPROCS=1"},
+		QuickBudgetS: 100, ThoroughBudgetS: 1200, WorkerEnv: []string{"GOMAXPROCS=1"},
 		Run: func(c *vlib.Ctx) {
 			bound := 1
 			if c.Thorough() {
@@ -408,8 +560,43 @@ func TestCheck(t *testing.T) {
 				c.Transition(st.Transitions)
 				c.Trace(st.Executions)
 			}
+			hs := histories(c.Thorough())
+			if c.Shard == 0 {
+				c.Extra("sequential_histories", int64(len(hs)))
+			}
+			for hi, hc := range hs {
+				if !c.Mine(int64(hi)) {
+					continue
+				}
+				if c.Expired() {
+					c.Cap("budget expired during the sequential histories")
+					break
+				}
+				vs, out := runHistory(hc)
+				c.Eval(1)
+				c.NontrivialN(1)
+				c.StateN(int64(len(hc.Ops)))
+				c.Transition(int64(len(hc.Ops)))
+				c.Trace(1)
+				c.Outcome("history:" + out)
+				for _, v := range vs {
+					p := strings.SplitN(v, "|", 2)
+					if p[0] == "harness" {
+						c.HarnessError(p[1])
+						continue
+					}
+					c.Violation(p[0]+"/layout="+hc.Layout, fmt.Sprintf("history layout=%s %v: %s", hc.Layout, hc.Ops, p[1]), map[string]any{"history": hc})
+				}
+			}
 		},
 		Replay: func(c *vlib.Ctx, raw json.RawMessage) (bool, string) {
+			var hw struct {
+				History *HCase `json:"history"`
+			}
+			if json.Unmarshal(raw, &hw) == nil && hw.History != nil {
+				vs, out := runHistory(*hw.History)
+				return len(vs) > 0, strings.Join(vs, " ;; ") + " outcome=" + out
+			}
 			var cs Case
 			if err := json.Unmarshal(raw, &cs); err != nil {
 				return false, err.Error()
